@@ -137,6 +137,17 @@ Tags(q) == (IF TopAlt(q) THEN {"top_level_alternation"} ELSE {})
 TagsOf(q, c) == IF c = "C26_wrong_members" THEN Tags(q) \cap {"top_level_alternation"} ELSE Tags(q) \cap {"anchored_valid"}
 
 ------------------------------------------------------------------------------
+\* an invalid pattern in ONE field while each other field is absent, valid and matching many members, or valid and
+\* matching few: "any invalid pattern anywhere => error and no list" must not depend on the other fields
+NameOpts   == { None, Pat(<<"star", <<"any">>>>), Pat(<<"lit", "a">>) }
+StatusOpts == { None, Pat(<<"star", <<"any">>>>), Pat(Wd(StatusWord(3))) }
+TagOpts    == { None, Pat(<<"star", <<"any">>>>), Pat(<<"lit", "b">>) }
+BadCross ==
+  { [name |-> Bad(i), status |-> b, tag |-> c] : i \in 1..NBad, b \in StatusOpts, c \in TagOpts } \cup
+  { [name |-> a, status |-> Bad(i), tag |-> c] : i \in 1..NBad, a \in NameOpts, c \in TagOpts } \cup
+  { [name |-> a, status |-> b, tag |-> Bad(i)] : i \in 1..NBad, a \in NameOpts, b \in StatusOpts } \cup
+  { [name |-> Bad(i), status |-> Bad(j), tag |-> None] : i \in {1, 5}, j \in {2, 6} }
+
 Reqs(d) ==
   LET P == { Pat(r) : r \in RE(d) } IN
   { [name |-> p, status |-> None, tag |-> None] : p \in P } \cup
@@ -144,7 +155,7 @@ Reqs(d) ==
   { [name |-> None, status |-> Pat(r), tag |-> None] : r \in StatusPats } \cup
   { [name |-> Bad(i), status |-> None, tag |-> None] : i \in 1..NBad } \cup
   { [name |-> None, status |-> Bad(i), tag |-> None] : i \in 1..NBad } \cup
-  { [name |-> None, status |-> None, tag |-> Bad(i)] : i \in 1..NBad }
+  { [name |-> None, status |-> None, tag |-> Bad(i)] : i \in 1..NBad } \cup BadCross
 
 Mixed ==
   LET P == { Pat(r) : r \in RE(1) } \cup {None}
